@@ -123,11 +123,17 @@ pub fn script(s: &Scen) -> Vec<String> {
         "while" => format!("while {h}"),
         "bang" => format!("! {h}"),
         "never" => format!("status 1 && {h}"),
+        "alias" => "h".to_string(),
+        "eval" => format!("eval '{h}"),
+        "exec" => format!("exec {}", op_text(op)),
         "bredir" => format!("{{ rd a {f}; rd b {f}; }} {}", op_text(op)),
         "fredir" => format!("f() {{ rd a {f}; }} {}", op_text(op)),
         p => panic!("unknown place {p}"),
     };
+    let exec_tail = format!("rd a {f}");
     let tail: Vec<&str> = match s.place.as_str() {
+        "eval" => vec!["'", "probe end"],
+        "exec" => vec![&exec_tail, "probe end"],
         "bare" => vec![],
         "top2" => vec!["rd k 0 <<'Q'", "q$x", "Q", "probe end"],
         "brace" => vec!["}", "probe end"],
@@ -143,7 +149,11 @@ pub fn script(s: &Scen) -> Vec<String> {
         "fredir" => vec!["f", "x=wx", "f", "probe end"],
         _ => vec!["probe end"],
     };
-    let mut v = vec![PRELUDE.to_string(), head];
+    let mut v = vec![PRELUDE.to_string()];
+    if s.place == "alias" {
+        v.push(format!("alias h=\"{}\"", header_text(s)));
+    }
+    v.push(head);
     v.extend(s.lines.iter().cloned());
     v.extend(tail.iter().map(|t| t.to_string()));
     v
@@ -153,7 +163,8 @@ pub fn script(s: &Scen) -> Vec<String> {
 // random scenarios
 // ---------------------------------------------------------------------------
 
-const PLACES: [&str; 22] = [
+const PLACES: [&str; 25] = [
+    "alias", "eval", "exec",
     "top", "top", "top2", "seq", "comment", "brace", "sub", "func", "for", "subst", "pipeL", "pipeR", "pipeNL",
     "andNL", "forin", "if", "case", "bredir", "fredir", "while", "bang", "never",
 ];
@@ -252,7 +263,7 @@ fn rest_line(rng: &mut StdRng) -> String {
 pub fn random_scen(rng: &mut StdRng) -> Scen {
     let place = PLACES[rng.gen_range(0..PLACES.len())].to_string();
     let place = if rng.gen_range(0..12) == 0 { "bare".to_string() } else { place };
-    let single = matches!(place.as_str(), "bredir" | "fredir");
+    let single = matches!(place.as_str(), "bredir" | "fredir" | "exec");
     let shape = if single {
         "post"
     } else if place == "top" || place == "bare" || place == "top2" {
@@ -265,13 +276,18 @@ pub fn random_scen(rng: &mut StdRng) -> Scen {
     let mut ops = Vec::new();
     let mut delims = Vec::new();
     for _ in 0..nops {
-        let (w, d) = *pick(rng, &WORDS);
+        let (w, d) = if place == "alias" || place == "eval" {
+            // spellings that survive the quoting of the alias value / the eval operand
+            *pick(rng, &[("E", "E"), ("F", "F"), ("EOF", "EOF"), ("'E'", "E"), ("\"E\"", "E"), ("-E", "-E")])
+        } else {
+            *pick(rng, &WORDS)
+        };
         let strip = rng.gen_bool(0.5);
         let mut sp = rng.gen_range(0..4) == 0;
         if w.starts_with('-') && !strip {
             sp = true;
         }
-        let fd = *pick(rng, &[0u32, 0, 3, 4, 5]);
+        let fd = if place == "exec" { *pick(rng, &[3u32, 4, 5]) } else { *pick(rng, &[0u32, 0, 3, 4, 5]) };
         ops.push(Op { strip, word: w.to_string(), fd, sp });
         delims.push(d.to_string());
     }
